@@ -16,69 +16,107 @@
 (*   "staleidx"  the record is written before next_index is incremented                                                    *)
 (*   "lazysync"  commits reach the file but are not fsynced before the call returns (synchronous=OFF); a Flush happens     *)
 (*               at an arbitrary later time                                                                                *)
+(*   "failreturn" a request through ReserveDestination that FAILED still gives "its" index back: the index of the last    *)
+(*               address handed out is returned to the pool (the class of the seeded change C62_1)                         *)
+(*                                                                                                                        *)
+(* Lock state and descriptor kinds: the wallet is unencrypted ("plain"), or encrypted and "unlocked" / "locked". A           *)
+(* descriptor whose range step is hardened (Hard) cannot derive new keys without the private key: while the wallet is      *)
+(* locked its TopUp extends nothing, and GetNewDestination FAILS ("Keypool ran out") once next_index reaches range_end.    *)
+(* A failed request must leave next_index unchanged. Requests on the descriptors in ViaReserve go through                  *)
+(* ReserveDestination (GetNewChangeDestination = reserve + keep; the change reservation of CreateTransaction = reserve,    *)
+(* then keep, or ReturnDestination when the transaction is not created: "resret", the index goes back to the pool and was  *)
+(* never handed out).                                                                                                     *)
 EXTENDS Naturals, FiniteSets, TLC, VF
 CONSTANTS Descs, K, MaxNext, Variant, MidCrash, TopUps,
-          ReqDescs     \* descriptors the behaviours request addresses from (a subset makes runs of requests on one descriptor likely)
-VARIABLES nextMem, rangeMem, nextDisk, rangeDisk, nextDur, rangeDur, pc, returned, dup, ncrash, lastAct, lastRes
-vars == <<nextMem, rangeMem, nextDisk, rangeDisk, nextDur, rangeDur, pc, returned, dup, ncrash, lastAct, lastRes>>
-View0 == <<nextMem, rangeMem, nextDisk, rangeDisk, nextDur, rangeDur, pc, returned, dup, ncrash>>
+          ReqDescs,    \* descriptors the behaviours request addresses from (a subset makes runs of requests on one descriptor likely)
+          Hard,        \* descriptors with a hardened range step
+          ViaReserve,  \* descriptors whose requests go through ReserveDestination (change addresses)
+          InitLocks    \* lock states a behaviour may start in: subset of {"plain", "unlocked"}
+VARIABLES nextMem, rangeMem, nextDisk, rangeDisk, nextDur, rangeDur, pc, lock, returned, dup, ncrash, lastAct, lastRes, hist
+vars == <<nextMem, rangeMem, nextDisk, rangeDisk, nextDur, rangeDur, pc, lock, returned, dup, ncrash, lastAct, lastRes, hist>>
+View0 == <<nextMem, rangeMem, nextDisk, rangeDisk, nextDur, rangeDur, pc, lock, returned, dup, ncrash>>
 Max(a, b) == IF a > b THEN a ELSE b
 Idle == <<"idle">>
 
 Init == /\ nextMem = [d \in Descs |-> 0] /\ rangeMem = [d \in Descs |-> K]
         /\ nextDisk = nextMem /\ rangeDisk = rangeMem /\ nextDur = nextMem /\ rangeDur = rangeMem
-        /\ pc = Idle /\ returned = {} /\ dup = FALSE /\ ncrash = 0
-        /\ lastAct = <<"init">> /\ lastRes = <<"none">>
+        /\ pc = Idle /\ lock \in InitLocks /\ returned = {} /\ dup = FALSE /\ ncrash = 0
+        /\ lastAct = <<"init">> /\ lastRes = <<"none">> /\ hist = <<>>
 
+\* can descriptor d derive keys beyond its cache in lock state lk
+CanTop(d, lk) == ~(d \in Hard /\ lk = "locked")
+Toppable(lk) == {d \in Descs : CanTop(d, lk)}
 \* TopUpWithDB for every descriptor in S with target size sz, applied to in-memory tables nm / rm; each is one committed transaction
 ToppedRange(nm, rm, S, sz) == [d \in Descs |-> IF d \in S THEN Max(nm[d] + sz, rm[d]) ELSE rm[d]]
 \* a commit: the record reaches the file; it is durable unless the variant postpones the fsync
 Commit(nm, rm) == /\ nextDisk' = nm /\ rangeDisk' = rm
                   /\ IF Variant = "lazysync" THEN UNCHANGED <<nextDur, rangeDur>> ELSE nextDur' = nm /\ rangeDur' = rm
+H(a) == hist' = Append(hist, a)
 
-\* GetNewDestination, first half: TopUp()
-GetNewBegin(d) ==
-    /\ pc = Idle /\ nextMem[d] < MaxNext
-    /\ rangeMem' = ToppedRange(nextMem, rangeMem, {d}, K)
+\* a request, first half: TopUp() (extends nothing for a hardened descriptor of a locked wallet). kind = "new" (the address is
+\* handed out: GetNewDestination, GetNewChangeDestination, a change reservation that is kept) or "resret" (reserved and given back)
+GetNewBegin(d, kind) ==
+    /\ pc = Idle /\ nextMem[d] < MaxNext /\ (kind = "resret" => d \in ViaReserve)
+    /\ rangeMem' = ToppedRange(nextMem, rangeMem, {d} \cap Toppable(lock), K)
     /\ Commit(nextMem, rangeMem')
-    /\ pc' = <<"getnew", d>>
-    /\ UNCHANGED <<nextMem, returned, dup, ncrash>>
+    /\ pc' = <<"getnew", d, kind>>
+    /\ UNCHANGED <<nextMem, lock, returned, dup, ncrash, hist>>
     /\ lastAct' = <<"newbegin", d>> /\ lastRes' = <<"none">>
-\* second half: derive index next_index, increment, WriteDescriptor, return
+\* second half: derive index next_index from the cache (fails if it is not there), increment, WriteDescriptor, return
 GetNewEnd(d) ==
-    /\ pc = <<"getnew", d>>
-    /\ LET i == nextMem[d] IN
-       /\ nextMem' = [nextMem EXCEPT ![d] = i + 1]
-       /\ CASE Variant = "nowrite"  -> UNCHANGED <<nextDisk, rangeDisk, nextDur, rangeDur>>
-            [] Variant = "staleidx" -> Commit(nextMem, rangeMem)
-            [] OTHER                -> Commit(nextMem', rangeMem)
-       /\ returned' = returned \cup {<<d, i>>}
-       /\ dup' = (dup \/ <<d, i>> \in returned)
-       /\ lastAct' = <<"new", d>> /\ lastRes' = <<"idx", i>>
-    /\ pc' = Idle /\ UNCHANGED <<rangeMem, ncrash>>
-\* keypoolrefill: CWallet::TopUpKeyPool(n) tops up every active descriptor (n = 0: the default size K)
+    /\ pc[1] = "getnew" /\ pc[2] = d
+    /\ LET i == nextMem[d] kind == pc[3] IN
+       IF i < rangeMem[d]
+       THEN IF kind = "new"
+            THEN /\ nextMem' = [nextMem EXCEPT ![d] = i + 1]
+                 /\ CASE Variant = "nowrite"  -> UNCHANGED <<nextDisk, rangeDisk, nextDur, rangeDur>>
+                      [] Variant = "staleidx" -> Commit(nextMem, rangeMem)
+                      [] OTHER                -> Commit(nextMem', rangeMem)
+                 /\ returned' = returned \cup {<<d, i>>}
+                 /\ dup' = (dup \/ <<d, i>> \in returned)
+                 /\ lastAct' = <<"new", d>> /\ lastRes' = <<"idx", i>> /\ H(<<"new", d>>)
+            ELSE \* reserved (next_index i+1 written), then ReturnDestination(i): it is the most recent one, next_index back to i, written
+                 /\ UNCHANGED <<nextMem, returned, dup>> /\ Commit(nextMem, rangeMem)
+                 /\ lastAct' = <<"resret", d>> /\ lastRes' = <<"reserved", i>> /\ H(<<"resret", d>>)
+       ELSE \* "Keypool ran out": nothing is handed out, nothing may change
+            /\ IF Variant = "failreturn" /\ d \in ViaReserve /\ i > 0
+               THEN nextMem' = [nextMem EXCEPT ![d] = i - 1] /\ Commit(nextMem', rangeMem)
+               ELSE UNCHANGED <<nextMem, nextDisk, rangeDisk, nextDur, rangeDur>>
+            /\ UNCHANGED <<returned, dup>>
+            /\ lastAct' = <<kind, d>> /\ lastRes' = <<"fail">> /\ H(<<kind, d>>)
+    /\ pc' = Idle /\ UNCHANGED <<rangeMem, lock, ncrash>>
+\* keypoolrefill: CWallet::TopUpKeyPool(n) tops up every active descriptor that can be (n = 0: the default size K)
 TopUp(n) ==
     /\ pc = Idle
-    /\ rangeMem' = ToppedRange(nextMem, rangeMem, Descs, IF n = 0 THEN K ELSE n)
+    /\ rangeMem' = ToppedRange(nextMem, rangeMem, Toppable(lock), IF n = 0 THEN K ELSE n)
     /\ Commit(nextMem, rangeMem')
-    /\ UNCHANGED <<nextMem, pc, returned, dup, ncrash>>
-    /\ lastAct' = <<"topup", n>> /\ lastRes' = <<"none">>
-\* loading a wallet: the records are read, then LoadExisting calls TopUpKeyPool()
+    /\ UNCHANGED <<nextMem, pc, lock, returned, dup, ncrash>>
+    /\ lastAct' = <<"topup", n>> /\ lastRes' = <<"none">> /\ H(<<"topup", n>>)
+Lock ==
+    /\ pc = Idle /\ lock = "unlocked" /\ lock' = "locked"
+    /\ UNCHANGED <<nextMem, rangeMem, nextDisk, rangeDisk, nextDur, rangeDur, pc, returned, dup, ncrash>>
+    /\ lastAct' = <<"lock">> /\ lastRes' = <<"none">> /\ H(<<"lock">>)
+Unlock ==
+    /\ pc = Idle /\ lock = "locked" /\ lock' = "unlocked"
+    /\ UNCHANGED <<nextMem, rangeMem, nextDisk, rangeDisk, nextDur, rangeDur, pc, returned, dup, ncrash>>
+    /\ lastAct' = <<"unlock">> /\ lastRes' = <<"none">> /\ H(<<"unlock">>)
+\* loading a wallet: the records are read (an encrypted wallet comes up locked), then LoadExisting calls TopUpKeyPool()
 LoadFrom(nd, rd) ==
     /\ nextMem' = nd
-    /\ rangeMem' = ToppedRange(nd, rd, Descs, K)
+    /\ lock' = (IF lock = "plain" THEN "plain" ELSE "locked")
+    /\ rangeMem' = ToppedRange(nd, rd, Toppable(lock'), K)
     /\ pc' = Idle
 Restart ==
     /\ pc = Idle
     /\ LoadFrom(nextDisk, rangeDisk) /\ Commit(nextDisk, rangeMem')
     /\ UNCHANGED <<returned, dup, ncrash>>
-    /\ lastAct' = <<"reload">> /\ lastRes' = <<"none">>
+    /\ lastAct' = <<"reload">> /\ lastRes' = <<"none">> /\ H(<<"reload">>)
 \* the process is killed: the file keeps every committed write
 CrashKill ==
     /\ (MidCrash \/ pc = Idle) /\ ncrash < 3
     /\ LoadFrom(nextDisk, rangeDisk) /\ Commit(nextDisk, rangeMem')
     /\ ncrash' = ncrash + 1 /\ UNCHANGED <<returned, dup>>
-    /\ lastAct' = <<"crash", "kill">> /\ lastRes' = <<"none">>
+    /\ lastAct' = <<"crash", "kill">> /\ lastRes' = <<"none">> /\ H(<<"crash", "kill">>)
 \* power loss: only what was fsynced survives
 CrashPower ==
     /\ (MidCrash \/ pc = Idle) /\ ncrash < 3
@@ -86,27 +124,29 @@ CrashPower ==
     /\ nextDisk' = nextDur /\ rangeDisk' = rangeMem'
     /\ (IF Variant = "lazysync" THEN UNCHANGED <<nextDur, rangeDur>> ELSE nextDur' = nextDur /\ rangeDur' = rangeMem')
     /\ ncrash' = ncrash + 1 /\ UNCHANGED <<returned, dup>>
-    /\ lastAct' = <<"crash", "power">> /\ lastRes' = <<"none">>
+    /\ lastAct' = <<"crash", "power">> /\ lastRes' = <<"none">> /\ H(<<"crash", "power">>)
 \* the operating system writes back dirty pages at some point (only distinguishable from a commit in the lazysync variant)
 Flush ==
     /\ Variant = "lazysync" /\ (nextDur # nextDisk \/ rangeDur # rangeDisk)
     /\ nextDur' = nextDisk /\ rangeDur' = rangeDisk
-    /\ UNCHANGED <<nextMem, rangeMem, nextDisk, rangeDisk, pc, returned, dup, ncrash>>
+    /\ UNCHANGED <<nextMem, rangeMem, nextDisk, rangeDisk, pc, lock, returned, dup, ncrash, hist>>
     /\ lastAct' = <<"flush">> /\ lastRes' = <<"none">>
 
-Next == \/ \E d \in ReqDescs : GetNewBegin(d) \/ GetNewEnd(d)
+Next == \/ \E d \in ReqDescs : GetNewBegin(d, "new") \/ GetNewBegin(d, "resret") \/ GetNewEnd(d)
         \/ \E n \in TopUps : TopUp(n)
-        \/ Restart \/ CrashKill \/ CrashPower \/ Flush
+        \/ Lock \/ Unlock \/ Restart \/ CrashKill \/ CrashPower \/ Flush
 
 \* ---- the property
-\* C62: no (descriptor, index) pair is handed out twice, across restarts and crashes
+\* C62: no (descriptor, index) pair is handed out twice, across failures, returned reservations, restarts and crashes
 NoRepeat == ~dup
 \* why it holds: whatever was handed out lies below the next index of every image a restart can start from
 ReturnedBelowNext == \A p \in returned : p[2] < nextMem[p[1]] /\ p[2] < nextDisk[p[1]] /\ p[2] < nextDur[p[1]]
-\* the cache covers the index that is handed out next (GetNewDestination never runs out after its own TopUp)
-RangeCovers == \A d \in Descs : (pc = <<"getnew", d>>) => nextMem[d] < rangeMem[d]
+\* the cache covers the index that is handed out next whenever the descriptor can derive keys
+RangeCovers == \A d \in Descs : (pc[1] = "getnew" /\ pc[2] = d /\ CanTop(d, lock)) => nextMem[d] < rangeMem[d]
+\* a failed request changes nothing
+FailNoChange == [][lastRes' = <<"fail">> => (nextMem' = nextMem /\ nextDisk' = nextDisk /\ nextDur' = nextDur)]_vars
 TypeOK == /\ \A d \in Descs : nextMem[d] <= MaxNext /\ nextDisk[d] <= nextMem[d] /\ nextDur[d] <= nextDisk[d]
 
-Proj == [next |-> nextMem, range |-> rangeMem]
+Proj == [next |-> nextMem, range |-> rangeMem, lock |-> lock]
 Emit == VFEdgeK(View0, Proj, lastAct', lastRes', View0', Proj')
 ====
